@@ -126,7 +126,9 @@ def St.incFailures (s : St) (id : Nat) (tcp : Bool) : St :=
   match s.server? id with
   | none => s
   | some v =>
-    let v' := { v with failures := v.failures + 1, nextRetry := s.now + s.cfg.retryDelay }
+    -- a failure of the server also ends any probe episode: whichever way the probe query ends (time-out, refused
+    -- connection, failed write), the server may be probed again once its retry time has passed
+    let v' := { v with failures := v.failures + 1, nextRetry := s.now + s.cfg.retryDelay, probePending := false }
     (s.setServer v').emit s!"srv({srvName v tcp},down,{if tcp then "tcp" else "udp"})"
 
 /-- server_set_good -/
